@@ -115,8 +115,9 @@ def proof_items():
         # an internal axis the next entry of the output's internal shape; ValueError exactly for what _validate_shapes
         # rejects, a zipped-size mismatch or a missing / short internal shape
         ProofItem(cshape.mapspec_shape, gen=cshape.shape_gen, thorough_only=True),
-        ProofItem(cshape.get_common_dim, gen=cshape.gcd_gen, bounded_only=True,
-                  why_bounded="nested function definition and starred unpacking of a generator"),
+        # the common size of the zipped inputs along an index (a callee of shape(); no longer an assumed contract)
+        ProofItem(cshape.get_common_dim, gen=cshape.gcd_gen,
+                  registry=lambda: {**{c.short: c for c in cm.ALL + cshape.ALL}, **{c.name: c for c in cm.ALL + cshape.ALL}}),
     ]
 
 
